@@ -429,7 +429,7 @@ def finish(res: Result, st: StageA, rule: str, level_note: list[str], obligation
     # inputs on which the tool never answered (or took its interpreter down) are failing inputs: the property promises an outcome for them
     for fname, item, what in PMAP_FAILURES[:3]:
         res.spec_failures.insert(0, {"harness_function": fname, "item": json.loads(json.dumps(item, default=lambda o: o.hex() if isinstance(o, (bytes, bytearray)) else repr(o)))
-                                     if not isinstance(item, (bytes, bytearray)) else item.hex(), "what": f"the tool did not finish on this input: {what}"})
+                                     if not isinstance(item, (bytes, bytearray)) else item.hex(), "what": f"no usable answer of the tool on this input: {what}"})
     # stage C failures: concrete violation
     for f in res.spec_failures[:5]:
         path = write_replay(prop, {"kind": "property-fails-on-implementation", **f})
@@ -557,9 +557,34 @@ def _pmap_init():
     _limit_memory()
 
 
+class _ItemError:
+    """the harness function raised on this item: it could not read what the tool answered (picklable marker)"""
+
+    def __init__(self, what):
+        self.what = what
+
+
+def _guarded(func, x):
+    try:
+        return func(x)
+    except (OSError, MemoryError):
+        raise                       # environment trouble is a harness error, not a finding
+    except Exception as e:  # noqa
+        import traceback
+        return _ItemError(f"{type(e).__name__}: {str(e)[:200]} :: " + " | ".join(traceback.format_exc().strip().splitlines()[-4:])[:600])
+
+
 def _run_chunk(fc):
     func, xs = fc
-    return [func(x) for x in xs]
+    return [_guarded(func, x) for x in xs]
+
+
+def _collect_item_errors(func, items, out):
+    for i, r in enumerate(out):
+        if isinstance(r, _ItemError):
+            PMAP_FAILURES.append((getattr(func, "__name__", "?"), items[i], "the harness could not read what the tool answered for this input - " + r.what))
+            out[i] = None
+    return out
 
 
 def _isolated(func, item, timeout):
@@ -614,7 +639,7 @@ def pmap(func, items, workers=None, chunk=64, chunk_timeout=420, item_timeout=90
         ensure_repo_on_path()
         import logging
         logging.disable(logging.CRITICAL)
-        return [func(x) for x in items]
+        return _collect_item_errors(func, items, [_guarded(func, x) for x in items])
     ctx = mp.get_context("fork")
     out = []
     pool = ctx.Pool(workers, initializer=_pmap_init)
@@ -630,7 +655,7 @@ def pmap(func, items, workers=None, chunk=64, chunk_timeout=420, item_timeout=90
         pool.terminate()
         pool.join()
     if len(out) == len(items):
-        return out
+        return _collect_item_errors(func, items, out)
     # isolation mode for what is outstanding (bounded: the items of the chunks in flight first; the rest is skipped)
     from concurrent.futures import ThreadPoolExecutor
     rest = items[len(out):]
@@ -644,4 +669,4 @@ def pmap(func, items, workers=None, chunk=64, chunk_timeout=420, item_timeout=90
     with ThreadPoolExecutor(max_workers=workers) as ex:
         out += list(ex.map(one, budget))
     out += [None] * (len(items) - len(out))
-    return out
+    return _collect_item_errors(func, items, out)
